@@ -723,6 +723,7 @@ fn run_tour(table: &Table, model: &mut Model, rep: &mut Report, seen: &mut Seen,
 // ---------------------------------------------------------------------------------------------
 
 pub fn run(args: &Args, model: &mut Model, table: &Table, rep: &mut Report) {
+    vs::set_recording(true);
     let mut seen = Seen { sites: BTreeSet::new(), edges: BTreeSet::new(), records: BTreeSet::new() };
     let mut confirmed: BTreeMap<String, u64> = BTreeMap::new();
     vs::clear_delays();
@@ -826,6 +827,7 @@ pub fn run(args: &Args, model: &mut Model, table: &Table, rep: &mut Report) {
 
 /// worker: scenarios [from, to) of the seeded stream; everything the parent needs goes into the report
 pub fn run_child(args: &Args, model: &mut Model, table: &Table, rep: &mut Report) {
+    vs::set_recording(true);
     let from: u64 = args.extra.get(1).and_then(|s| s.parse().ok()).unwrap_or(0);
     let to: u64 = args.extra.get(2).and_then(|s| s.parse().ok()).unwrap_or(0);
     let mut seen = Seen { sites: BTreeSet::new(), edges: BTreeSet::new(), records: BTreeSet::new() };
